@@ -21,7 +21,7 @@ static const char *m_opname(int k)
     return "?";
 }
 
-enum { CF_KEYS, CF_JUNK, CF_MAXN, CF_CLEARFREES, CF_CMP, CF_FAULTS };
+enum { CF_KEYS, CF_JUNK, CF_MAXN, CF_CLEARFREES, CF_CMP, CF_FAULTS, CF_INTKEYS };
 
 #define MAXN 700
 #define KMAGIC 0x6b65796b65796b65ull
@@ -90,14 +90,19 @@ static int cmp_keys(const void *a, const void *b, void *priv)
 {
     const struct mkey *x = a, *y = b;
     (void)priv;
+    /* a key object that the caller has already released must not be handed to the comparison function */
+    if ((simheap_id(a) >= 0 && !simheap_is_live(a)) || (simheap_id(b) >= 0 && !simheap_is_live(b))) {
+        int saved = g_inlib; g_inlib = 0; (void)saved;
+        sim_violation("C08/compare_released_key/erase_iterator/map", "the comparison function was handed a key object the caller had already released");
+    }
     if (cmpkind == 3 && aux_nodes) {
         CB_ENTER();
         int rx = rank_of(x), ry = rank_of(y), r;
         r = (rx > ry) - (rx < ry);
         CB_LEAVE();
-        return r;
+        return sim_cmp(r);
     }
-    return keyorder(x->val, y->val, cmpkind);
+    return sim_cmp(keyorder(x->val, y->val, cmpkind));
 }
 
 static struct mkey *new_key(int val)
@@ -243,6 +248,91 @@ static void do_clear(void)
 
 /* -------------------------------------------------------------------- exec */
 
+/* ---------------------------------------------- maps keyed by small integers */
+
+/*
+ * A map used as a set/dictionary of integers cast to pointers: the key 0 is the NULL pointer and some values are
+ * NULL too. Nothing in the API forbids that; code that uses "key == NULL" or "val == NULL" as a sentinel breaks.
+ */
+static int ik_cmp(const void *a, const void *b, void *priv)
+{
+    uintptr_t x = (uintptr_t)a, y = (uintptr_t)b;
+    (void)priv;
+    return sim_cmp((x > y) - (x < y));
+}
+#define IKMAX 64
+static int ik_seen[IKMAX], ik_bad;
+static void ik_clear_cb(void *obj, void *priv)
+{
+    CB_ENTER();
+    cstl_map_iterator_t *it = obj;
+    uintptr_t k = (uintptr_t)it->key;
+    (void)priv;
+    if (k < IKMAX && (uintptr_t)it->val == (k % 3 == 0 ? 0 : k * 8 + 1)) ik_seen[k]++; else ik_bad++;
+    CB_LEAVE();
+}
+
+static void intkey_once(const plan_t *p)
+{
+    struct simheap_cfg hc = { RP_MOVE, 0, (unsigned char)p->cfg[CF_JUNK] };
+    static cstl_map_t im; static cstl_map_iterator_t it; static int rc;
+    int present[IKMAX], n = 0, k, i, nk = (int)(p->cfg[CF_KEYS] % IKMAX) + 1;
+    simheap_reset(&hc, p->cfg[CF_JUNK]);
+    mode_g = p->mode; since_clear = -1; aux_nodes = 0;
+    memset(present, 0, sizeof present);
+    memset(&im, (int)(unsigned char)p->cfg[CF_JUNK], sizeof im);
+    cstl_map_init(&im, ik_cmp, NULL);
+    for (k = 0; k <= p->nops; k++) {
+        const op_t *o = k < p->nops ? &p->ops[k] : NULL;
+        int kind = o ? o->kind : M_CLEAR;
+        uintptr_t key = o ? (uintptr_t)(o->a[0] % (uint64_t)nk) : 0;
+        void *val = (void *)(key % 3 == 0 ? (uintptr_t)0 : key * 8 + 1);
+        g_run.step = k; g_run.opkind = kind; g_run.steps++;
+        g_cur_prop = kind == M_CLEAR ? "C15" : "C08"; g_cur_ctx = key == 0 ? "int-key-0" : "int-keys";
+        switch (kind) {
+        case M_INSERT:
+            memset(&it, 0x5a, sizeof it);
+            TRY(rc = cstl_map_insert(&im, (const void *)key, val, &it));
+            if (g_aborted) VIOL("abort", "insert aborted");
+            if (rc != (present[key] ? 1 : 0)) VIOL("insert_rc", "insert of integer key %zu returned %d (present before: %d)", (size_t)key, rc, present[key]);
+            if (it.key != (const void *)key || it.val != val) VIOL("insert_it", "iterator after inserting integer key %zu does not carry its key/value", (size_t)key);
+            if (!present[key]) { present[key] = 1; n++; }
+            if (key == 0) PROBE("int_key_zero_inserted");
+            break;
+        case M_FIND:
+            memset(&it, 0x5a, sizeof it);
+            TRY(cstl_map_find(&im, (const void *)key, &it));
+            if (present[key]) { if (it._ == NULL || it.key != (const void *)key || it.val != val) VIOL("find_present", "integer key %zu is stored but find did not yield it", (size_t)key); }
+            else if (!cstl_map_iterator_eq(&it, cstl_map_iterator_end(&im))) VIOL("find_absent", "find of absent integer key %zu did not yield the end iterator", (size_t)key);
+            break;
+        case M_ERASE: case M_ERASE_IT:
+            memset(&it, 0x5a, sizeof it);
+            TRY(rc = cstl_map_erase(&im, (const void *)key, &it));
+            if (g_aborted) VIOL("abort", "erase aborted");
+            if (rc != (present[key] ? 0 : -1)) VIOL("erase_rc", "erase of integer key %zu returned %d (present before: %d)", (size_t)key, rc, present[key]);
+            if (present[key] && (it.key != (const void *)key || it.val != val)) VIOL("erase_reports", "erase of integer key %zu did not report the removed entry", (size_t)key);
+            if (present[key]) { present[key] = 0; n--; }
+            break;
+        default: {  /* clear (also the epilogue) */
+            memset(ik_seen, 0, sizeof ik_seen); ik_bad = 0;
+            since_clear = 0; g_cur_prop = "C15"; g_cur_ctx = "int-keys-clear";
+            TRY(cstl_map_clear(&im, ik_clear_cb, NULL));
+            if (g_aborted) VIOLP("C15", "abort", "clear aborted");
+            if (ik_bad) VIOLP("C15", "clear_foreign", "clear handed over %d entries that were never stored", ik_bad);
+            for (i = 0; i < IKMAX; i++) if (ik_seen[i] != present[i])
+                VIOLP("C15", "clear_count", "clear called back %d times for integer key %d (stored: %d; key 0 is the NULL pointer, every third value is NULL)", ik_seen[i], i, present[i]);
+            if (simheap_live_count(TAG_LIB) != 0) VIOLP("C08", "clear_leak", "%u map nodes still allocated after clear", simheap_live_count(TAG_LIB));
+            memset(present, 0, sizeof present); n = 0;
+            PROBE("int_key_map_clear");
+            since_clear = -1;
+            break;
+        }
+        }
+        if (cstl_map_size(&im) != (size_t)n) VIOL("size", "map of integer keys reports size %zu, reference has %d", cstl_map_size(&im), n);
+    }
+    g_run.nontrivial = 1;
+}
+
 static void m_once(const plan_t *p)
 {
     struct simheap_cfg hc = { RP_MOVE, 0, (unsigned char)p->cfg[CF_JUNK] };
@@ -251,6 +341,7 @@ static void m_once(const plan_t *p)
     static struct mkey probe;
     static int rc;
 
+    if (p->cfg[CF_INTKEYS] && p->mode != 16) { intkey_once(p); return; }
     simheap_reset(&hc, p->cfg[CF_JUNK]);
     faultenum_apply();
     mode_g = p->mode;
@@ -318,6 +409,14 @@ static void m_once(const plan_t *p)
             if ((o->a[2] & 1) && nent > 0) { ei = (int)(o->a[3] % (uint64_t)nent); val = ent[ei].k->val; }
             probe.val = val;
             memset(&it, 0x5a, sizeof it);
+            if ((o->a[2] & 6) == 6) {
+                /* the probe key lives in the same memory as the result iterator (nothing forbids it: no restrict) */
+                static union { cstl_map_iterator_t it; struct mkey k; } alias;
+                alias.k.magic = KMAGIC; alias.k.id = -1; alias.k.val = val; alias.k.tail = ~KMAGIC;
+                TRY(cstl_map_find(&map, &alias.k, &alias.it));
+                it = alias.it;
+                PROBE("find_probe_aliases_iterator");
+            } else
             TRY(cstl_map_find(&map, &probe, &it));
             if (g_aborted) VIOL("abort", "find aborted");
             if (ei >= 0) {
@@ -355,9 +454,15 @@ static void m_once(const plan_t *p)
             TRY(cstl_map_find(&map, &probe, &it));
             if (g_aborted) VIOL("abort", "find aborted");
             if (it.key != ent[ei].k || it.val != ent[ei].v) VIOL("find_present", "find of key %d did not yield the stored pointers", val);
+            if ((o->a[2] & 3) == 3) {
+                /* erase by iterator needs no key: the caller may already have released the record that held it */
+                memset(ent[ei].k, 0xDD, sizeof *ent[ei].k); simheap_free(ent[ei].k); ent[ei].k = NULL;
+                PROBE("erase_iterator_after_key_released");
+            }
             TRY(cstl_map_erase_iterator(&map, &it));
             if (g_aborted) VIOL(g_aborted == 2 ? "assert" : "abort", "erase_iterator aborted");
-            simheap_free(ent[ei].k); simheap_free(ent[ei].v);
+            if (ent[ei].k) simheap_free(ent[ei].k);
+            simheap_free(ent[ei].v);
             ent[ei] = ent[--nent];
             PROBE("erase_iterator");
             EVT("erase_it", val, 0, nent);
@@ -405,6 +510,7 @@ static void m_gen(prng_t *r, int mode, plan_t *p)
     p->cfg[CF_CLEARFREES] = mode == 15 ? 1 : prng_below(r, 2);
     p->cfg[CF_CMP] = prng_below(r, 4);
     p->cfg[CF_FAULTS] = (uint64_t)faults;
+    p->cfg[CF_INTKEYS] = (mode != 16 && !longrun && prng_chance(r, 1, 8)) ? 1 : 0;
     for (i = 0; i < nops; i++) {
         unsigned x = (unsigned)prng_below(r, 100 + w_clear);
         int kind = x < 45 ? M_INSERT : x < 60 ? M_FIND : x < 82 ? M_ERASE : x < 100 ? M_ERASE_IT : M_CLEAR;
